@@ -332,8 +332,24 @@ def rule_read_gated(ctx):
 def rule_bucket_race(ctx):
     fn = get_fn(ctx.facts, "nucleo", VEC + "get_or_alloc")
     cas = [(bi, t) for bi, t in fn.calls(lambda t: (atomic_op(t) or "").startswith("compare_exchange"))]
+    # who installs bucket pointers, and how: only a CAS from null may write Bucket.entries
+    n_inst = 0
+    for b in ctx.facts.bodies_of("nucleo"):
+        f2 = fn_of(b)
+        for bi2, t2 in f2.calls(lambda t: atomic_op(t) in ("store", "swap", "fetch_update", "compare_exchange", "compare_exchange_weak")):
+            if classify(f2, f2.expr_of_operand(t2["args"][0])) != "Bucket.entries":
+                continue
+            n_inst += 1
+            m2 = atomic_op(t2)
+            if m2 == "compare_exchange":
+                ctx.ok(site(f2, bi2), "bucket pointer installed with compare_exchange")
+            else:
+                ctx.violation("%s|Bucket.entries.%s|install" % (f2.path, m2), site(f2, bi2),
+                              "bucket pointer written with `%s`: two writers that both find the bucket unallocated each install their own allocation, the later one orphans the earlier together with every item already written through it (a completed push is lost: get(index) returns None)" % m2)
     if len(cas) != 1:
-        raise Inconclusive("get_or_alloc: expected one compare_exchange")
+        if n_inst == 0:
+            ctx.violation(VEC + "get_or_alloc|cas|missing", site(fn, 0), "get_or_alloc does not install the bucket at all")
+        return
     bi, t = cas[0]
     key = VEC + "get_or_alloc|cas|1"
     expected = fn.expr_of_operand(t["args"][1])
